@@ -19,6 +19,7 @@ Record c13_case := mkCase {
   k_steps : list step;                            (* innermost first *)
   k_forward : bool;                               (* every harness wrapper calls the function below it *)
   k_partial : nat;                                (* else: the wrappers of the top k_partial levels do *)
+  k_wkinds : list wkind;                          (* per step: the wrapper is a plain def/lambda, or an async def *)
   k_calls : list call;
   (* observations on the real code *)
   k_fsig : signature;                             (* inspect.signature(f) *)
@@ -35,6 +36,10 @@ Record c13_case := mkCase {
         outermost wrapper received (None: not reached) and the outcome: TypeError, or what
         f saw when the wrappers forward, else [] *)
   ;
+  k_extra : nat;
+     (* over the accepted calls: how many awaits MORE than the original function needs it took
+        until the outermost call's value appeared (0: awaiting the wrapper's call gives what
+        awaiting the original gives; > 0: a coroutine object came back un-awaited) *)
   k_lower_saws : list (list call)
      (* per call shape: what the wrappers of the entered lower levels received, outermost
         first (only with partially forwarding wrappers; [] otherwise) *)
@@ -66,6 +71,7 @@ Fixpoint forall2b {A B} (f : A -> B -> bool) (l1 : list A) (l2 : list B) : bool 
   end.
 
 (* ---- agree: the model predicts every observation ----------------------------- *)
+Definition is_ok {A} (r : res A) : bool := match r with Ok _ => true | Raise _ => false end.
 Definition model_again (f : pyfunc) : option signature :=
   match update_wrapper f [] [] with
   | Ok g => match sig_of (b_func g) with Ok s => Some s | Raise _ => None end
@@ -92,13 +98,15 @@ Definition agree (k : c13_case) : bool :=
   forall2b level_agree gs (k_levels k) &&
   option_eqb exn_eqb e (k_fail k) &&
   match e with
-  | None => list_eqb call_obs_eqb (map (call_top f (rev gs) (k_forward k) (k_partial k)) (k_calls k)) (k_top_calls k) &&
+  | None => Nat.eqb (k_extra k)
+                    (if existsb (fun o => is_ok (snd o)) (map (call_top f (rev gs) (k_forward k) (k_partial k)) (k_calls k))
+                     then extra_awaits f gs (k_wkinds k) else 0) &&
+            list_eqb call_obs_eqb (map (call_top f (rev gs) (k_forward k) (k_partial k)) (k_calls k)) (k_top_calls k) &&
             list_eqb (list_eqb call_eqb) (map (lower_saws (rev gs) (k_forward k) (k_partial k)) (k_calls k)) (k_lower_saws k)
-  | Some _ => match k_top_calls k, k_lower_saws k with [], [] => true | _, _ => false end
+  | Some _ => Nat.eqb (k_extra k) 0 && match k_top_calls k, k_lower_saws k with [], [] => true | _, _ => false end
   end.
 
 (* ---- holds: the implementation's observations satisfy the Spec ------------------ *)
-Definition is_ok {A} (r : res A) : bool := match r with Ok _ => true | Raise _ => false end.
 Definition is_type_error {A} (r : res A) : bool :=
   match r with Ok _ => true | Raise TypeError => true | Raise _ => false end.
 
@@ -179,6 +187,8 @@ Definition holds (k : c13_case) : bool :=
   list_eqb rb_eqb (map (bind (sg_params (k_fsig k))) (k_calls k)) (k_direct k) &&
   (* wrapping does not touch the wrapped function *)
   sig_eqb (k_fsig k) (k_fsig_after k) && dict_equiv (f_dict f) (k_fdict_after k) &&
+  (* awaiting the wrapper's call gives what awaiting the original gives: no coroutine is left over *)
+  Nat.eqb (k_extra k) 0 &&
   (* ... and nothing of it leaks into a later, independent wraps(f) *)
   option_eqb sig_eqb (Some (k_fsig k)) (k_again k) &&
   match levels_ok f (k_fasync k) (k_fsig k) (f_id f) (k_steps k) (k_levels k) (k_fail k) with
